@@ -57,11 +57,15 @@ type C17Case struct {
 
 	// sock: <scratch>/e0/../m0/../nri.sock with len(Existing) pre-existing directories
 	// (chmod'ed to the given modes) followed by Missing directories Start has to create,
-	// under process umask Umask; Disabled = WithDisabledExternalConnections.
+	// under process umask Umask; Disabled = WithDisabledExternalConnections is among the
+	// options (with Opts set it is derived from Opts).
 	Umask    int   `json:"umask,omitempty"`
 	Existing []int `json:"existing,omitempty"`
 	Missing  int   `json:"missing,omitempty"`
 	Disabled bool  `json:"disabled,omitempty"`
+	// Opts: the options given to adaptation.New, in order (tokens: see sock_test.go). Empty =
+	// the conventional order (socket path, plugin path, config path, disabled last).
+	Opts []string `json:"opts,omitempty"`
 }
 
 // ---------------------------------------------------------------------------------------
